@@ -37,8 +37,8 @@ Proof. exact step_fail_returns_input. Qed.
    transition of another component applied before it in the same batch can invalidate it; SMP/Deliver.v: a job lying in a
    machine's pre-buffer has its next operation on that machine, because AGVs deliver their claim to the machine of its first
    idle operation). Consequently the environment never truncates an episode because of a failed step. Hypotheses: booleans on
-   the initial state only (the last two: no idle AGV has a claim; jobs that START in a pre-buffer start in front of the
-   machine of their first operation). That a step may still RAISE (BufferFullError with finite capacities) or not return
+   the initial state only (the last one: jobs that START in a pre-buffer start in front of the machine of their first
+   operation). That a step may still RAISE (BufferFullError with finite capacities) or not return
    (ordered standalone buffers) is the subject of the refutations below; for the instance of C05_refuted_* the hypotheses of
    this theorem hold too: it never fails - it does not come back. *)
 Theorem C05_step_never_reports_failure_every_instance :
@@ -46,15 +46,15 @@ Theorem C05_step_never_reports_failure_every_instance :
          (a : Z) (sto : list (Z * nat)) (m' : mw),
     inst_nonneg_b i = true ->
     clock_b x0 = true -> wfs_b i x0 = true -> fresh2_b i x0 = true -> nodep_b x0 = true ->
-    idle_unclaimed_b x0 = true -> pre_ok_b x0 = true ->
+    pre_ok_b x0 = true ->
     reach sigma i fuel x0 joker0 ta r m -> mw_step sigma i fuel r m a <> MFail sto m'.
-Proof. intros sigma i fuel x0 joker0 ta r m a sto m' Hnn C W Fr Dn Iu Po H Hm. eapply run_never_fails; eauto. Qed.
+Proof. intros sigma i fuel x0 joker0 ta r m a sto m' Hnn C W Fr Dn Po H Hm. eapply run_never_fails; eauto. Qed.
 Print Assumptions C05_step_never_reports_failure_every_instance.
 
 Example C05_never_fails_hypotheses_satisfiable :
   inst_nonneg_b hang_inst = true /\ clock_b hang_init = true
   /\ wfs_b hang_inst hang_init = true /\ fresh2_b hang_inst hang_init = true /\ nodep_b hang_init = true
-  /\ idle_unclaimed_b hang_init = true /\ pre_ok_b hang_init = true.
+  /\ pre_ok_b hang_init = true.
 Proof. vm_compute. repeat split. Qed.
 
 (* C05_refuted: "every offered action can be taken and the call returns" is FALSE of the faithful model, for
